@@ -5,10 +5,13 @@ package main
 
 import (
 	"bytes"
+	"context"
 	"encoding/xml"
 	"fmt"
 	"io"
 	"math/rand"
+	"net"
+	"net/http"
 	"regexp"
 	"runtime"
 	"sort"
@@ -19,6 +22,7 @@ import (
 
 	xmpp "gosrc.io/xmpp"
 	"gosrc.io/xmpp/stanza"
+	"nhooyr.io/websocket"
 )
 
 // rItem is one inbound top-level element, abstract + how to render it.
@@ -33,14 +37,45 @@ type rItem struct {
 }
 
 type recvIn struct {
-	Component bool    `json:"component,omitempty"`
-	SM        bool    `json:"sm,omitempty"` // client: UnAckQueue present
-	Inb       int     `json:"inb,omitempty"`
-	WFail     int     `json:"wfail,omitempty"` // 1-based failing write, 0 = none
-	Items     []rItem `json:"items"`
-	Cut       int     `json:"cut"`             // byte offset at which the inbound stream is cut (-1: after everything)
-	Chunk     int     `json:"chunk,omitempty"` // max bytes per Read
-	LeakCheck bool    `json:"leakcheck,omitempty"`
+	Component   bool    `json:"component,omitempty"`
+	SM          bool    `json:"sm,omitempty"` // client: UnAckQueue present
+	Inb         int     `json:"inb,omitempty"`
+	WFail       int     `json:"wfail,omitempty"` // 1-based failing write, 0 = none
+	Items       []rItem `json:"items"`
+	Cut         int     `json:"cut"`             // byte offset at which the inbound stream is cut (-1: after everything)
+	Chunk       int     `json:"chunk,omitempty"` // max bytes per Read
+	LeakCheck   bool    `json:"leakcheck,omitempty"`
+	WS          bool    `json:"ws,omitempty"`            // over the real WebsocketTransport (one frame per element)
+	Logged      bool    `json:"logged,omitempty"`        // real XMPPTransport read path with the traffic logger, over a scripted net.Conn
+	ErrWithData bool    `json:"err_with_data,omitempty"` // the last bytes and the read error arrive in the same Read call
+}
+
+// wsify: RFC 7395 framing has no enclosing stream element: every top-level element
+// names its namespace itself.
+func wsify(items []rItem) []rItem {
+	out := make([]rItem, 0, len(items))
+	for _, it := range items {
+		switch it.T {
+		case "stanza":
+			for _, n := range []string{"<message", "<presence", "<iq"} {
+				if strings.HasPrefix(it.XML, n) {
+					it.XML = n + " xmlns='jabber:client'" + it.XML[len(n):]
+				}
+			}
+		case "nonza":
+			if it.Tag%len(nonzaXML) == 0 {
+				it.Tag = 1 // stream:features needs the stream prefix: not expressible in a frame
+				it.render()
+			}
+		case "bad":
+			it.Tag = 0
+			it.render()
+		case "serr", "close":
+			continue
+		}
+		out = append(out, it)
+	}
+	return out
 }
 
 // libGoroutines counts live goroutines with a frame in the library under test.
@@ -75,7 +110,7 @@ var badXML = []string{
 	"<stream:unknown/>",
 }
 
-var textPool = []string{"hi", "a &amp; b &lt; c", "  padded  ", "é漢😀", "line1\nline2", "]]&gt;", strings.Repeat("x", 300)}
+var textPool = []string{"hi", "a &amp; b &lt; c", "  padded  ", "é漢😀", "line1\nline2", "]]&gt;", strings.Repeat("x", 300), strings.Repeat("y", 6000), strings.Repeat("z ", 6500)}
 
 func renderStanza(kind, id, v int) string {
 	txt := textPool[v%len(textPool)]
@@ -296,6 +331,24 @@ func packetSx(p stanza.Packet) Sx {
 
 // runRecv runs one history; returns (sync log, async routed sorted into history order).
 func runRecv(in recvIn) Sx {
+	if in.WS {
+		o := runRecvWS(in)
+		if len(o.L) != 6 {
+			return o
+		}
+		// same shape as the stub observation: answers in order, then the loss reported, then the loop end
+		sync := append([]Sx{}, o.L[1].L...)
+		for k := int64(0); k < o.L[3].Z; k++ {
+			sync = append(sync, L(Z(4)))
+		}
+		for k := int64(0); k < o.L[4].Z; k++ {
+			sync = append(sync, L(Z(5), o.L[5]))
+		}
+		if o.L[2].Z == 1 {
+			sync = append(sync, L(Z(9)))
+		}
+		return L(LS(sync), o.L[0], Z(0))
+	}
 	hdr := clientHeader
 	if in.Component {
 		hdr = componentHeader
@@ -326,7 +379,16 @@ func runRecv(in recvIn) Sx {
 		}
 		return nil
 	}
-	if _, err := st.StartStream(); err != nil {
+	hook := &stubHooks{st: st, tr: st, lg: lg}
+	if in.Logged {
+		// the real XMPPTransport read/write path (traffic logger, buffered decoder) over a scripted connection
+		var logBuf bytes.Buffer
+		xt := xmpp.VerifXMPPTransportLoggedOnConn(&fakeConn{st: st, errWithData: in.ErrWithData}, &logBuf, 1)
+		if _, err := stanza.InitStream(xt.GetDecoder()); err != nil {
+			return L(SBytes("stub-start-failed"))
+		}
+		hook.tr = xt
+	} else if _, err := st.StartStream(); err != nil {
 		return L(SBytes("stub-start-failed"))
 	}
 	st.mu.Lock()
@@ -335,7 +397,6 @@ func runRecv(in recvIn) Sx {
 		st.writeFailAt[in.WFail] = true
 	}
 	st.mu.Unlock()
-	hook := &stubHooks{st: st, lg: lg}
 	done := make(chan struct{})
 	quit := make(chan struct{})
 	if in.Component {
@@ -470,20 +531,44 @@ func canonAsync(obs []Sx, items []rItem) []Sx {
 // logged in program order.
 type stubHooks struct {
 	st *stubTransport
+	tr xmpp.Transport // what the calls are forwarded to: the stub itself or a real XMPPTransport over a scripted net.Conn
 	lg *recvLog
 }
 
-func (h *stubHooks) Connect() (string, error)     { return h.st.Connect() }
-func (h *stubHooks) DoesStartTLS() bool           { return h.st.DoesStartTLS() }
-func (h *stubHooks) StartTLS() error              { return h.st.StartTLS() }
+// fakeConn: a net.Conn fed by the stub's scripted input; with errWithData the last
+// bytes and the read error come back from the same Read call (as crypto/tls does when
+// a close_notify directly follows the data).
+type fakeConn struct {
+	st          *stubTransport
+	errWithData bool
+}
+
+func (f *fakeConn) Read(p []byte) (int, error) {
+	n, err := f.st.Read(p)
+	if f.errWithData && err == nil && n > 0 && f.st.exhausted() {
+		return n, io.EOF
+	}
+	return n, err
+}
+func (f *fakeConn) Write(p []byte) (int, error)        { return f.st.Write(p) }
+func (f *fakeConn) Close() error                       { return nil }
+func (f *fakeConn) LocalAddr() net.Addr                { return &net.TCPAddr{} }
+func (f *fakeConn) RemoteAddr() net.Addr               { return &net.TCPAddr{} }
+func (f *fakeConn) SetDeadline(t time.Time) error      { return nil }
+func (f *fakeConn) SetReadDeadline(t time.Time) error  { return nil }
+func (f *fakeConn) SetWriteDeadline(t time.Time) error { return nil }
+
+func (h *stubHooks) Connect() (string, error)     { return h.tr.Connect() }
+func (h *stubHooks) DoesStartTLS() bool           { return h.tr.DoesStartTLS() }
+func (h *stubHooks) StartTLS() error              { return h.tr.StartTLS() }
 func (h *stubHooks) LogTraffic(w io.Writer)       {}
-func (h *stubHooks) StartStream() (string, error) { return h.st.StartStream() }
-func (h *stubHooks) GetDecoder() *xml.Decoder     { return h.st.GetDecoder() }
-func (h *stubHooks) IsSecure() bool               { return h.st.IsSecure() }
-func (h *stubHooks) Ping() error                  { return h.st.Ping() }
-func (h *stubHooks) Read(p []byte) (int, error)   { return h.st.Read(p) }
+func (h *stubHooks) StartStream() (string, error) { return h.tr.StartStream() }
+func (h *stubHooks) GetDecoder() *xml.Decoder     { return h.tr.GetDecoder() }
+func (h *stubHooks) IsSecure() bool               { return h.tr.IsSecure() }
+func (h *stubHooks) Ping() error                  { return h.tr.Ping() }
+func (h *stubHooks) Read(p []byte) (int, error)   { return h.tr.Read(p) }
 func (h *stubHooks) Write(p []byte) (int, error) {
-	n, err := h.st.Write(p)
+	n, err := h.tr.Write(p)
 	m := reAnswer.FindSubmatch(p)
 	switch {
 	case m == nil:
@@ -497,5 +582,139 @@ func (h *stubHooks) Write(p []byte) (int, error) {
 	}
 	return n, err
 }
-func (h *stubHooks) Close() error         { h.lg.addSync(L(Z(7))); return h.st.Close() }
-func (h *stubHooks) ReceivedStreamClose() { h.lg.addSync(L(Z(8))); h.st.ReceivedStreamClose() }
+func (h *stubHooks) Close() error         { h.lg.addSync(L(Z(7))); return h.tr.Close() }
+func (h *stubHooks) ReceivedStreamClose() { h.lg.addSync(L(Z(8))); h.tr.ReceivedStreamClose() }
+
+// ---------------------------------------------------------------- WebSocket variant
+// runRecvWS: the same receive loop over the real WebsocketTransport: a loopback
+// websocket server sends <open/> and then every item of the history as one text
+// frame; when everything has been routed the CLIENT closes the transport (a loss of
+// the websocket by the peer is only noticed through the keepalive ping, C18).
+func runRecvWS(in recvIn) Sx {
+	ln, err := net.Listen("tcp", "127.0.0.1:0")
+	if err != nil {
+		return L(SBytes("listen-failed"))
+	}
+	defer ln.Close()
+	ctx, cancel := context.WithCancel(context.Background())
+	defer cancel()
+	var smu sync.Mutex
+	var answers []Sx
+	sendDone := make(chan struct{})
+	srv := &http.Server{Handler: http.HandlerFunc(func(w http.ResponseWriter, r *http.Request) {
+		c, err := websocket.Accept(w, r, &websocket.AcceptOptions{Subprotocols: []string{"xmpp"}})
+		if err != nil {
+			return
+		}
+		defer c.Close(websocket.StatusNormalClosure, "")
+		c.SetReadLimit(1 << 20)
+		if c.Write(ctx, websocket.MessageText, []byte(`<open xmlns="urn:ietf:params:xml:ns:xmpp-framing" id="x" version="1.0"/>`)) != nil {
+			return
+		}
+		// the client's <open/>
+		if _, _, err := c.Read(ctx); err != nil {
+			return
+		}
+		go func() {
+			for {
+				_, data, err := c.Read(ctx)
+				if err != nil {
+					return
+				}
+				if m := reAnswer.FindSubmatch(data); m != nil {
+					v, _ := strconv.Atoi(string(m[1]))
+					smu.Lock()
+					answers = append(answers, L(Z(2), Zi(v)))
+					smu.Unlock()
+				}
+			}
+		}()
+		for _, it := range in.Items {
+			if c.Write(ctx, websocket.MessageText, []byte(it.XML)) != nil {
+				break
+			}
+		}
+		close(sendDone)
+		<-ctx.Done()
+	})}
+	go srv.Serve(ln)
+	defer srv.Close()
+
+	lg := &recvLog{}
+	router := xmpp.NewRouter()
+	router.NewRoute().HandlerFunc(func(s xmpp.Sender, p stanza.Packet) {
+		lg.mu.Lock()
+		lg.async = append(lg.async, packetSx(p))
+		lg.mu.Unlock()
+	})
+	nerr, ndisc := 0, 0
+	var discInb int64
+	tr := xmpp.NewClientTransport(xmpp.TransportConfiguration{Address: "ws://" + ln.Addr().String() + "/ws", Domain: "localhost", ConnectTimeout: 2})
+	if _, err := tr.Connect(); err != nil {
+		return L(SBytes("ws-connect-failed: " + err.Error()))
+	}
+	cfg := &xmpp.Config{TransportConfiguration: xmpp.TransportConfiguration{Address: "localhost:1"}, Jid: "u@localhost", Credential: xmpp.Password("p"), StreamManagementEnable: in.SM}
+	c, err := xmpp.NewClient(cfg, router, func(error) { lg.mu.Lock(); nerr++; lg.mu.Unlock() })
+	if err != nil {
+		return L(SBytes("newclient-failed"))
+	}
+	c.SetHandler(func(e xmpp.Event) error {
+		if xmpp.VerifEventState(e) == xmpp.StateDisconnected {
+			lg.mu.Lock()
+			ndisc++
+			discInb = int64(e.SMState.Inbound)
+			lg.mu.Unlock()
+		}
+		return nil
+	})
+	xmpp.VerifSetTransport(c, tr)
+	sm := xmpp.SMState{Inbound: uint(in.Inb)}
+	if in.SM {
+		sm.Id, sm.UnAckQueue = "smid", stanza.NewUnAckQueue()
+	}
+	xmpp.VerifSetSession(c, sm)
+	done := make(chan struct{})
+	go func() { xmpp.VerifRecv(c, make(chan struct{})); close(done) }()
+	select {
+	case <-sendDone:
+	case <-time.After(5 * time.Second):
+		return L(SBytes("ws-server-stuck"))
+	}
+	want := 0
+	for _, it := range in.Items {
+		if it.T == "bad" {
+			break
+		}
+		want++
+	}
+	deadline := time.Now().Add(3 * time.Second)
+	for time.Now().Before(deadline) {
+		lg.mu.Lock()
+		n := len(lg.async)
+		lg.mu.Unlock()
+		select {
+		case <-done:
+			deadline = time.Now()
+		default:
+		}
+		if n >= want {
+			break
+		}
+		time.Sleep(300 * time.Microsecond)
+	}
+	time.Sleep(2 * time.Millisecond)
+	closed := make(chan struct{})
+	go func() { tr.Close(); close(closed) }()
+	loopEnded := true
+	select {
+	case <-done:
+	case <-time.After(3 * time.Second):
+		loopEnded = false
+	}
+	lg.mu.Lock()
+	defer lg.mu.Unlock()
+	smu.Lock()
+	defer smu.Unlock()
+	async := canonAsync(lg.async, in.Items)
+	return L(LS(async), LS(answers), B(loopEnded), Zi(nerr), Zi(ndisc), Z(discInb))
+}
